@@ -47,11 +47,20 @@ def cases(tier, seed):
                 "id": f"c05-{k}", "fact": configs.FACTS[k % 3], "cal": configs.CALS[(k // 3) % 3], "ts": rng.choice(["ts0", "ts1"]),
                 "nu": nu, "strategy": ["filter", "fixedpoint"][(k // 9) % 2] if tier == "thorough" else rng.choice(["filter", "fixedpoint"]),
                 "tol": 10 ** rng.uniform(-5, -2), "dt0": 10 ** rng.uniform(-2.5, -0.5), "T": rng.uniform(0.3, 0.8),
+                # a controller with memory (proportional-integral) in every other block of nine: whatever the loop carries
+                # across a checkpoint must survive it (seed C05-s3 reset the controller at checkpoints on step ends)
+                "control": ["integral", "pi"][(k // (18 if tier == "thorough" else 9)) % 2],
                 "field": field.to_json(), "inits": [[str(x) for x in b] for b in inits], "t0": str(t0),
                 "seedc": rng.randrange(10**9), "cost": 15.0,
             }
         )
     return out
+
+
+def _control(case):
+    from probdiffeq import ivpsolve
+
+    return ivpsolve.control_proportional_integral() if case.get("control") == "pi" else ivpsolve.control_integral()
 
 
 def _record_run(cfg, save_at, case, clip=False):
@@ -61,7 +70,8 @@ def _record_run(cfg, save_at, case, clip=False):
 
     log = record.Log()
     rec = record.RecSolver(log, cfg["solver"], keep_states=True)
-    solve = ivpsolve.solve_adaptive_save_at(solver=rec, error=record.RecError(log, cfg["error"]), clip_dt=clip,
+    control = _control(case)
+    solve = ivpsolve.solve_adaptive_save_at(solver=rec, error=record.RecError(log, cfg["error"]), clip_dt=clip, control=control,
                                             while_loop=record.make_while(log, max_iter=300))
     with jax.disable_jit():
         sol = solve(cfg["prior"], jnp.asarray(save_at), atol=case["tol"], rtol=case["tol"], dt0=case["dt0"], eps=EPS)
@@ -222,7 +232,7 @@ def run_case(case):
     # ---- (c) off-grid marginals of a save-every-step run -------------------------------------------------------------
     strat_es = "filter" if case["strategy"] == "filter" else "fixedinterval"
     cfg_es = configs.build(fact=fact, strategy=strat_es, cal=cal, ts=case["ts"], nu=nu, problem=problem)
-    sol_es = test_util.solve_adaptive_save_every_step(solver=cfg_es["solver"], error=cfg_es["error"], clip_dt=False)(
+    sol_es = test_util.solve_adaptive_save_every_step(solver=cfg_es["solver"], error=cfg_es["error"], clip_dt=False, control=_control(case))(
         cfg_es["prior"], t0, T1, atol=case["tol"], rtol=case["tol"], dt0=case["dt0"], eps=EPS)
     grid_es = np.asarray(sol_es.t, float)
     for jx, t in enumerate(B[1:-1], start=1):
@@ -240,11 +250,11 @@ def run_case(case):
 
     # ---- (d) terminal-value routine ------------------------------------------------------------------------------------
     for clip in (False, True):
-        term = jax.jit(ivpsolve.solve_adaptive_terminal_values(solver=cfg["solver"], error=cfg["error"], clip_dt=clip, while_loop=configs.bounded_while()))(
+        term = jax.jit(ivpsolve.solve_adaptive_terminal_values(solver=cfg["solver"], error=cfg["error"], clip_dt=clip, control=_control(case), while_loop=configs.bounded_while()))(
             cfg["prior"], t0=t0, t1=T1, atol=case["tol"], rtol=case["tol"], dt0=case["dt0"], eps=EPS)
         mt, Pt = extract.normal_dense(term.u)
         if clip:
-            two = jax.jit(ivpsolve.solve_adaptive_save_at(solver=cfg["solver"], error=cfg["error"], clip_dt=True, while_loop=configs.bounded_while()))(
+            two = jax.jit(ivpsolve.solve_adaptive_save_at(solver=cfg["solver"], error=cfg["error"], clip_dt=True, control=_control(case), while_loop=configs.bounded_while()))(
                 cfg["prior"], jnp.asarray([t0, T1]), atol=case["tol"], rtol=case["tol"], dt0=case["dt0"], eps=EPS)
             mr, Pr = extract.normal_dense(extract.tree_index(two.u, 1))
         else:
